@@ -76,15 +76,20 @@ class Shim:
         return seq[CH.choose(len(seq))]
 
     def sample(self, population, k, *, counts=None):
-        pop = list(population)
+        # choose among the identity-distinct remaining elements (the evaluator samples from repeated iterator objects)
+        groups = {}
+        for p in population:
+            g = groups.get(id(p))
+            if g is None:
+                groups[id(p)] = [p, 1]
+            else:
+                g[1] += 1
         out = []
         for _ in range(k):
-            ids = []
-            for idx, p in enumerate(pop):
-                if not any(pop[j] is p for j in ids):
-                    ids.append(idx)
-            j = ids[CH.choose(len(ids))]
-            out.append(pop.pop(j))
+            live = [g for g in groups.values() if g[1] > 0]
+            g = live[CH.choose(len(live))]
+            out.append(g[0])
+            g[1] -= 1
         return out
 
     def random(self):
